@@ -56,6 +56,9 @@ def check(run, prog, tier):
     run.rule("C14-I", "the temperature a thermal state is built with is taken from the environments that are present, never "
                       "short-cut by a summary flag that a remover clears while other environments remain", minimum=1)
     rule_I(run, prog)
+    run.rule("C14-J", "the temperature of a molecule is looked up over all its environments (every transition, and the matrix "
+                      "of correlation functions it may be mapped on), through attributes that exist", minimum=3)
+    rule_J(run, prog)
 
 
 def rule_G(run, prog):
@@ -646,3 +649,43 @@ def rule_I(run, prog):
                    loc=bad[0].loc(bad[1]) if bad else f.loc(f.node), sample={"unsound_summary_flags": sorted(unsound)})
     if not unsound:
         raise AnalysisError("Molecule: no summary flag cleared next to a single table entry found (1 confirmed: _has_system_bath_coupling)")
+
+
+def rule_J(run, prog):
+    """'Populations in the ratio exp(-(E_a-E_b)/kT)' at the temperature of the bath the molecule is coupled to - on any of
+    its transitions, given directly or through a CorrelationFunctionMatrix.  (i) Molecule.get_temperature does not
+    single out one transition: it asks no environment by a constant transition, it runs over self.egcf (and looks at the
+    matrix when the molecule is mapped on one).  (ii) What the molecule reads from self.egcf_matrix exists in
+    CorrelationFunctionMatrix - a misspelt attribute raises AttributeError, which get_temperature's callers swallow."""
+    rid = "C14-J"
+    mol = prog.cls("quantarhei.builders.molecules.Molecule")
+    f = mol.methods["get_temperature"]
+    prog.consulted.add(f.relpath)
+    const_tr = [c for c in walk_no_nested(f.node) if isinstance(c, ast.Call) and call_name(c) == "get_transition_environment"
+                and c.args and isinstance(c.args[0], (ast.List, ast.Tuple)) and all(isinstance(e, ast.Constant) for e in c.args[0].elts)]
+    over_all = any(isinstance(x, ast.For) and norm(x.iter) == "self.egcf" for x in walk_no_nested(f.node))
+    matrix = any(isinstance(x, ast.Attribute) and norm(x) == "self.egcf_matrix" for x in walk_no_nested(f.node))
+    run.obligation(rid, "Molecule.get_temperature", not const_tr and over_all, key="all-transitions",
+                   message="Molecule.get_temperature takes the temperature from the environment of one fixed transition (%s): with the "
+                           "bath on another transition it reports 0 K and the thermal state is the ground state"
+                           % (norm(const_tr[0]) if const_tr else "no loop over self.egcf"), loc=f.loc(const_tr[0] if const_tr else f.node))
+    run.obligation(rid, "Molecule.get_temperature", matrix, key="mapped-environments",
+                   message="Molecule.get_temperature does not look at the matrix of correlation functions the molecule may be mapped on "
+                           "(set_egcf_mapping): such a molecule reports 0 K", loc=f.loc(f.node))
+    cfm = prog.cls("quantarhei.qm.corfunctions.cfmatrix.CorrelationFunctionMatrix")
+    names = set(cfm.methods) | set(cfm.attrs)
+    for fn in cfm.methods.values():
+        for x in ast.walk(fn.node):
+            if isinstance(x, ast.Attribute) and norm(x.value) == "self" and isinstance(x.ctx, ast.Store):
+                names.add(x.attr)
+    n = 0
+    for fn in mol.methods.values():
+        for x in walk_no_nested(fn.node):
+            if isinstance(x, ast.Attribute) and norm(x.value) == "self.egcf_matrix" and isinstance(x.ctx, ast.Load):
+                n += 1
+                prog.consulted.add(fn.relpath)
+                run.obligation(rid, fn.short, x.attr in names, key="matrix-api:" + x.attr,
+                               message="%s reads self.egcf_matrix.%s; CorrelationFunctionMatrix has no such attribute: the environment "
+                                       "of a mapped molecule cannot be read (AttributeError)" % (fn.short, x.attr), loc=fn.loc(x))
+    if n < 2:
+        raise AnalysisError("only %d uses of self.egcf_matrix in Molecule (2 confirmed)" % n)
